@@ -150,3 +150,12 @@ where
         MapOperation::Clear => Some(MapOperation::Clear),
     }
 }
+
+#[cfg(feature = "verif_hooks")]
+impl<K, V> EventQueue<K, V> {
+    /// Preset the epoch of the head of an empty queue (to reach epoch wrap-around in bounded time).
+    pub fn verif_set_head_epoch(&mut self, epoch: usize) {
+        assert!(self.events.is_empty() && self.epoch_map.is_empty());
+        self.head_epoch = epoch;
+    }
+}
